@@ -927,6 +927,39 @@ func allKinds() []kind {
 			c.obj.StorageProof[0].Proof = append([]string{}, all...)
 			return c
 		}},
+		// the storage proof must stand on its own: its nodes handed over in the ACCOUNT proof list instead (all of them, or
+		// only the last / the first one), the storage proof itself left empty or truncated
+		kind{"stop/nodes-moved-into-account-proof/all", func(g *gen) *caseSpec {
+			c := g.trueBase("")
+			sp := c.obj.StorageProof[0]
+			if len(sp.Proof) == 0 {
+				return nil
+			}
+			c.obj.AccountProof = append(append([]string{}, c.obj.AccountProof...), sp.Proof...)
+			sp.Proof = []string{}
+			return c
+		}},
+		kind{"stop/nodes-moved-into-account-proof/last", func(g *gen) *caseSpec {
+			c := g.trueBase("")
+			sp := c.obj.StorageProof[0]
+			if len(sp.Proof) == 0 {
+				return nil
+			}
+			n := len(sp.Proof) - 1
+			c.obj.AccountProof = append(append([]string{}, c.obj.AccountProof...), sp.Proof[n])
+			sp.Proof = append([]string{}, sp.Proof[:n]...)
+			return c
+		}},
+		kind{"stop/nodes-moved-into-account-proof/first", func(g *gen) *caseSpec {
+			c := g.trueBase("")
+			sp := c.obj.StorageProof[0]
+			if len(sp.Proof) < 2 {
+				return nil
+			}
+			c.obj.AccountProof = append([]string{sp.Proof[0]}, c.obj.AccountProof...)
+			sp.Proof = append([]string{}, sp.Proof[1:]...)
+			return c
+		}},
 		// two random object-level mutations of a true base
 		kind{"combo/two-list-muts", func(g *gen) *caseSpec {
 			c := g.trueBase("")
